@@ -273,6 +273,20 @@ def r4_and_rest(ctx, b):
         sl = origins(gi, {"l": 0, "p": []}, through=True)
         ctx.require(R4, ("acmed::config::Certificate", "identifiers") in sl.fields and any(x.is_("acmed::config::Identifier::to_generic") for x in sl.calls) and not shrinkers_in(sl),
                     "%s:%s" % (gi.file, gi.line), "get_identifiers converts every configured identifier with to_generic, in order", ["config::Certificate::get_identifiers", "all"])
+        # not evaluable (the loop got a condition the interpreter cannot decide on symbolic identifiers): then at least no converted
+        # identifier may skip the push — from the success edge of to_generic every way back to the loop head goes through Vec::push
+        tg_calls = [c for c in gi.calls if (c.name or "").endswith("config::Identifier::to_generic")]
+        pushes = [c.bb for c in gi.calls if (c.name or c.fn or "").endswith(("Vec::push", "Vec<T, A>::push")) or (c.fn or "") == "alloc::vec::Vec::push"]
+        heads = {c.bb for c in gi.calls if (c.fn or "") == "core::iter::traits::iterator::Iterator::next"}
+        if tg_calls and pushes and heads:
+            from ..mir import try_edges as _te
+            for c in tg_calls:
+                oks = [tg for t in _te(gi, [c.dest["l"]]) for tg in t["ok"]]
+                for tg in oks:
+                    r_ = gi.reachable([tg], removed_nodes=pushes)
+                    ctx.require(R4, not (heads & set(r_)) and not (set(gi.return_blocks()) & set(r_)), c.where(),
+                                "every identifier that converted is pushed: no path from to_generic's success back to the loop (or out) avoids the push",
+                                ["config::Certificate::get_identifiers", "skip-push"])
 
     csr_internals(ctx)
 
